@@ -169,7 +169,13 @@ pub fn get_expr(text: &str) -> Option<String> {
 }
 
 pub fn get_exprs(text: &str) -> Vec<(core::ops::Range<usize>, String)> {
-    let re = Regex::new(r"\{\{(.*)\}\}").unwrap();
+    // several templates in one string are separate expressions: each one ends at its own `}}`
+    // (a single template keeps everything up to the last `}}`, its expression may contain `}}`)
+    let re = if text.matches("{{").count() > 1 {
+        Regex::new(r"\{\{(.*?)\}\}").unwrap()
+    } else {
+        Regex::new(r"\{\{(.*)\}\}").unwrap()
+    };
     re.find_iter(text)
         .map(|cap| (cap.range(), cap.as_str().to_string()))
         .collect()
